@@ -129,6 +129,7 @@ Record structspec : Type := mk_sspec {
   s_id : str;
   s_from : bool;      (* derives FromDeb822 *)
   s_to : bool;        (* derives ToDeb822 *)
+  s_eq : bool;        (* derives PartialEq (the harness can compare values; otherwise it compares what they print to) *)
   s_fields : list fieldspec }.
 
 (* errors of from_paragraph: the message names the field *)
@@ -387,7 +388,7 @@ Definition lossless_para_like (sk : ll_set_kind) (rk : ll_remove_kind) : ParaLik
 Definition rt_pair (s : ser_id) (d : de_id) : bool :=
   match s, d with
   | SStr, DStr | SBool, DBool | SYesNo, DYesNo | SJaNee, DJa
-  | SJoinWs, DSplitWs | SJoinNl, DSplitNl | SJoinNl, DLines => true
+  | SJoinWs, DSplitWs | SJoinNl, DSplitWs | SJoinNl, DSplitNl | SJoinNl, DLines => true
   | SNum, DNum _ | SInt, DInt _ => true
   | SExt i, DExt j => (i =? j)%N
   | _, _ => false
@@ -439,3 +440,20 @@ Definition sval_eqb (a b : list (option (uval str))) : bool :=
                        | Some u, Some w => uval_eqb u w
                        | _, _ => false
                        end) a b.
+
+(* ------------------------------------------------------------------ entry points of the runner *)
+(* the generic functions at the two back-ends, with the table instance of the external codecs;
+   the explicit argument types keep the extracted OCaml signatures first-order *)
+Notation xval := (list (option (uval str))).
+Definition x_from_lossy (t : ext_table) (fs : list fieldspec) (p : list (str * str)) : dres xval :=
+  from_paragraph str (table_parse t) lossy_para_like fs p.
+Definition x_from_ll (t : ext_table) (sk : ll_set_kind) (rk : ll_remove_kind) (fs : list fieldspec) (p : tree) : dres xval :=
+  from_paragraph str (table_parse t) (lossless_para_like sk rk) fs p.
+Definition x_to_lossy (fs : list fieldspec) (v : xval) : option (list (str * str)) :=
+  to_paragraph str table_print lossy_para_like fs v.
+Definition x_to_ll (sk : ll_set_kind) (rk : ll_remove_kind) (fs : list fieldspec) (v : xval) : option tree :=
+  to_paragraph str table_print (lossless_para_like sk rk) fs v.
+Definition x_update_lossy (fs : list fieldspec) (v : xval) (p : list (str * str)) : option (list (str * str)) :=
+  update_paragraph str table_print lossy_para_like fs v p.
+Definition x_update_ll (sk : ll_set_kind) (rk : ll_remove_kind) (fs : list fieldspec) (v : xval) (p : tree) : option tree :=
+  update_paragraph str table_print (lossless_para_like sk rk) fs v p.
